@@ -27,6 +27,18 @@ def gen(seed, idx, tier):
         eps_kinds=("none", "none", "none", "const", "spatial"),
         p_remesh=0.12,
     )
+    if rnd.random() < 0.2:
+        # a stop in the middle of a step: the frames recorded afterwards (the final frame of a
+        # cancelled run, the next regular frame of a resumed one) are frames like any other
+        pause = rnd.random() < 0.4
+        scn["options"]["pause_on_interrupt"] = pause
+        scn["options"]["save_every"] = rnd.choice([1, 2, 3, 5, 100])
+        scn["observer"] = {"output": None, "answers": ["y", "y"] if pause else []}
+        scn["faults"] = [f for f in scn.get("faults", []) if f["kind"] == "refuse"] + [
+            {"kind": "sigint", "at": {"point": "line", "func": rnd.choice(["update", "update", "adaptive_euler_step", "solve_for_observables"]), "ordinal": rnd.randint(10, 500), "stage": "S"}}
+        ]
+        scn["meta"]["cancel_in_step"] = True
+        return scn
     return scen.maybe_solve_twice(rnd, scn)
 
 
@@ -47,11 +59,17 @@ def check_frames(sim, h):
     rm = c.rm
     for fr in h.frames:
         s = fr["step"]
-        if not fr["completed"] or fr["stage"] != "S" or s == 0 or s - 1 >= len(S):
+        if not fr["completed"] or fr["stage"] != "S" or s == 0:
             continue
+        # the update that produced the state labelled s (labels, not positions: a resumed run skips
+        # the interrupted step)
+        done = [u for u in S if u["step"] == s - 1 and u["out"] is not None]
+        if not done:
+            continue
+        t_step = done[-1]["time"]
         J = np.asarray(fr["data"]["supercurrent"]) + np.asarray(fr["data"]["normal_current"])
         flow = rm.net_outflow(J)
-        I = B.current_at(sim.scn["drive"].get("currents"), S[s - 1]["time"])
+        I = B.current_at(sim.scn["drive"].get("currents"), t_step)
         expected = np.zeros(rm.n)
         for name, t in c.shares.items():
             tot = c.J_scale * I.get(name, 0.0) / c.xi
